@@ -112,3 +112,29 @@ impl PriceMap {
         Ok(())
     }
 }
+
+/// Verification hooks (add-only, compiled only with `--cfg gmsol_verif`).
+#[cfg(gmsol_verif)]
+pub mod verif {
+    use super::*;
+
+    /// [`SmallPrices::from_price`].
+    pub fn small_prices_from_price(
+        price: &gmsol_utils::Price,
+        is_synthetic: bool,
+        is_open: bool,
+    ) -> Result<SmallPrices> {
+        SmallPrices::from_price(price, is_synthetic, is_open)
+    }
+
+    /// [`PriceMap::set`].
+    pub fn price_map_set(
+        map: &mut PriceMap,
+        token: &Pubkey,
+        price: gmsol_utils::Price,
+        is_synthetic: bool,
+        is_open: bool,
+    ) -> Result<()> {
+        map.set(token, price, is_synthetic, is_open)
+    }
+}
